@@ -2,11 +2,13 @@
 
 mod bg;
 mod corpus;
+mod mutate;
 mod engine;
 mod props;
 mod rs;
 mod tools;
 mod worker;
+mod zoo;
 
 use engine::Tier;
 
